@@ -354,8 +354,8 @@ func main() {
 		Rule:     "script tree: client configuration (4 selector/authenticator/TLS-capability combinations) x server script over a 26-symbol alphabet (every session state incl. regressions, id variants, option lists, confirmations, scheme lists, round-trip data, data envelopes, undecodable bytes, disconnect, silence until the context deadline) to the stated depth; each path is one execution of the real ClientChannel.EstablishSession over a virtual connection (real TLS when confirmed); distinct outcome = distinct observation log",
 		Assume:   []string{"selector and authenticator callbacks return normally (the statement's own proviso)", "TCP transport over a virtual pipe", "deviation bound 0 (lock-step exchange); bound 1 with preemptions only on the depth-3 tree in thorough"},
 		Scenarios: []harness.Scenario{
-			mk("channel/d3", 3, all, false, 0, -1),
-			mk("channel/d5", 5, all, false, -1, 0),
+			mk("channel/d5", 5, all, false, 0, -1),
+			mk("channel/d6", 6, all, false, -1, 0),
 			mk("channel/d3/post-established", 3, all, true, 0, -1),
 			mk("channel/d4/post-established", 4, all, true, -1, 0),
 			mk("channel/d3/k1", 3, all[:2], false, -1, 1),
